@@ -27,13 +27,15 @@ PREFIXES = {
     "constshared": ["L = x * kc", "kv = kc[:2]", "z = k[:2] * kv"],
     # L itself is an input of the other graph: back-propagating the other result releases L's own graph
     "Lconsumed": ["L = x * k", "z = (L * c2).sum()"],
+    # L reads the shared leaf both directly and through a view of it
+    "both": ["xv = x[:2]", "L = (x * k).sum() + (xv * k[:2]).sum()", "z = x * c2"],
 }
 # tensors upstream of L (a view that only the OTHER graph went through is not: its gradient legitimately reads None)
-CHECK_NAMES = {"zview": ("x", "k"), "constshared": ("x",), "Lconsumed": ("x", "k")}
+CHECK_NAMES = {"zview": ("x", "k"), "constshared": ("x",), "Lconsumed": ("x", "k"), "both": ("x", "k", "xv")}
 EVENTS = ["z.backward()", "z.clear_graph()", "x[...] = c1", "x[:1] = c1", "xv[...] = c1", "x *= c2", "w = x * c2", "w = k * c2",
           "x.null_grad()", "w = x[::-1]", "w.backward()", "m[...] = c1", "w = m * c2", "k[1:] = c1", "rawwrite(x)", "rawwrite(k)", "rawwrite(m)", "rawwrite(xv)", "rawwrite(kc)", "x.reshape(-1)", "m.reshape(-1)", "kc[...] = c1", "kc[:1] = c1"]
 EVENTS_Q = ["z.backward()", "z.clear_graph()", "x[...] = c1", "x[:1] = c1", "xv[...] = c1", "w = x * c2", "x.null_grad()", "w.backward()",
-            "m[...] = c1", "w = m * c2", "rawwrite(x)", "rawwrite(k)", "rawwrite(m)", "rawwrite(kc)", "x.reshape(-1)", "kc[...] = c1"]  # x.reshape(-1): a view whose result is dropped at once
+            "m[...] = c1", "w = m * c2", "rawwrite(x)", "rawwrite(k)", "rawwrite(m)", "rawwrite(kc)", "x.reshape(-1)", "kc[...] = c1", "w = x[::-1]"]  # x.reshape(-1): a view whose result is dropped at once
 
 
 class Setup:
